@@ -6,6 +6,20 @@ from .terms import is_const, walk
 COMMUTATIVE = {"cb.add", "cb.mul", "cb.and", "cb.or", "cb.is_equal", "cb.connect", "cb.add_extension", "cb.mul_extension"}
 
 
+def ok_value(t):
+    """the payload a `?` lets through: a merged Result whose other members are errors (`Err(..)` / `from_residual(..)` of a helper that
+    was expanded in place, `return Err(..)` arms) is, past the `?`, its single non-error member"""
+    t = norm(t)
+    if isinstance(t, tuple) and t and t[0] == "phi":
+        def is_err(m):
+            m = norm(m)
+            return isinstance(m, tuple) and m and (m[0] == "err" or (m[0] == "call" and m[2].endswith("::from_residual")))
+        oks = [m for m in t[2] if not is_err(m)]
+        if len(oks) == 1 and len(oks) < len(t[2]):
+            return ok_value(oks[0])
+    return t
+
+
 def norm(t):
     """drop BoolTarget `.target` projections and BoolTarget::new_unsafe wrappers are kept (they matter)"""
     while isinstance(t, tuple) and t and t[0] == "fld" and t[2] == "target":
